@@ -2,6 +2,7 @@
 // sequences in the grammar the library issues, under the deterministic scheduler.
 #include <algorithm>
 #include <cmath>
+#include <csignal>
 #include <cassert>
 #include <mutex>
 #include <vector>
@@ -416,6 +417,32 @@ namespace
         g_cur.res.counters["p.tsan_reports"] = races;
     }
 
+    void on_death()
+    {
+        static bool once = false;
+        if (once)
+            return;
+        once = true;
+        std::string text = g_cap.since();
+        g_cap.echo(text);
+        std::string scls = vh::sanitizer_class(text);
+        g_cur.res.verdict = "violation";
+        g_cur.res.cls = "sanitizer";
+        g_cur.res.key = "sanitizer:fatal:" + (scls.empty() ? std::string("unknown") : scls) + ":pool";
+        g_cur.res.detail = "fatal error (sanitizer report / assertion / abort, process killed) during op#" + std::to_string(g_cur.op_index) + "\n"
+                           + vh::sanitizer_summary(text) + text.substr(0, 600);
+        g_cur.res.st = vsim::current_stats();
+        if (!g_cur.replaying && g_args.gates("sanitizer"))
+            g_cur.res.replay_path = write_replay("sanitizer", g_cur.res.detail);
+        vh::print_result(g_cur.res, true);
+        g_agg.print();
+    }
+    void on_abort(int)
+    {
+        on_death();
+        _exit(77);
+    }
+
     bool ops_from_replay(const vh::ReplayFile& rf, std::vector<Op>& ops)
     {
         for (const auto& t : rf.ops)
@@ -440,8 +467,12 @@ namespace
     }
 }
 
+extern "C" void __sanitizer_set_death_callback(void (*callback)(void));
+
 int main(int argc, char** argv)
 {
+    __sanitizer_set_death_callback(&on_death);
+    signal(SIGABRT, &on_abort);
     g_args = vh::parse_args(argc, argv);
     g_rs = new RunState();
     g_cap.start();
@@ -499,6 +530,25 @@ int main(int argc, char** argv)
         }
         vh::print_begin(run);
         run_one(g_cur.ops, cfg);
+        if (g_args.verify_replay && g_cur.res.verdict == "ok" && !vsim::deviations_overflowed())
+        {
+            // exactness of record/replay: the recorded deviations alone must reproduce the execution
+            vh::Result first = g_cur.res;
+            vsim::Config rc;
+            rc.strategy = vsim::ST_REPLAY;
+            rc.replay = vsim::deviations();
+            rc.step_budget = cfg.step_budget;
+            run_one(g_cur.ops, rc);
+            if (g_cur.res.st.event_hash != first.st.event_hash)
+            {
+                first.verdict = "internal";
+                first.cls = "replay_mismatch";
+                first.detail = "replaying the recorded deviations gave event hash " + vh::hex64(g_cur.res.st.event_hash) + " instead of "
+                               + vh::hex64(first.st.event_hash);
+            }
+            first.counters["p.replay_verified"] = 1;
+            g_cur.res = first;
+        }
         // non-trivial: at least two threads were simultaneously enabled and the schedule deviated
         g_cur.res.nontrivial = g_cur.res.st.decisions_multi > 0 && g_cur.res.st.switches > g_cur.res.st.forced_switches;
         if (g_cur.res.verdict != "ok")
